@@ -16,6 +16,10 @@ FORBIDDEN = re.compile(
     r"Unset Guard Checking|Unset Positivity Checking|Unset Universe Checking|bypass_check|"
     r"native_compute|type-in-type|impredicative-set)\b"
 )
+ALLOWED_AXIOMS = {
+    "ClassicalDedekindReals.sig_not_dec", "ClassicalDedekindReals.sig_forall_dec",
+    "FunctionalExtensionality.functional_extensionality_dep", "Classical_Prop.classic",
+}
 STMT = re.compile(r"^\s*(?:Local\s+|Global\s+|#\[[^\]]*\]\s*)?(Theorem|Lemma|Corollary|Example|Proposition|Fact|Remark)\s+([A-Za-z0-9_']+)", re.M)
 
 
@@ -121,10 +125,15 @@ def check_props(pid: str, tier: str = "quick") -> dict:
             for blk in re.split(r"\n(?=Axioms:)", out2):
                 if blk.startswith("Axioms:"):
                     for line in blk.splitlines()[1:]:
-                        mm = re.match(r"^([A-Za-z0-9_.']+)\s*:", line)
+                        mm = re.match(r"^([A-Za-z0-9_.']+)\s*(?::|$)", line)
                         if mm:
                             axioms.append(mm.group(1))
             res["axioms"] = sorted(set(axioms))
+            # only axioms the standard library itself declares may appear (the real numbers behind Flocq, C09's
+            # floating-point theorems; DESIGN section 7 names each of them)
+            for a in res["axioms"]:
+                if a not in ALLOWED_AXIOMS:
+                    res["failures"].append(f"Print Assumptions reports an axiom outside the declared trusted base: {a}")
             res["assumptions"] = dict(closed=closed, with_axioms=out2.count("Axioms:"))
             n_print = len(re.findall(r"Print Assumptions", _strip_comments(props.read_text())))
             if closed + out2.count("Axioms:") < n_print:
